@@ -3,6 +3,7 @@ candidate stream (value, span, trace, score; subject; labels; best) under an inj
 (sequence compared) and the constant scorer (multiset compared), incl. depth limits, relative_match_len,
 latent on/off and every deadline-check index (deadline oracle)."""
 import random, sys, itertools, collections
+from qa import samp
 from datetime import datetime
 from qa import Driver, enc
 from codec import enc_art, enc_ts
@@ -103,7 +104,7 @@ def texts(rng, n):
     from ctparse.time.auto_corpus import corpus as ac
     base = [(t, datetime.strptime(tss, "%Y-%m-%dT%H:%M")) for _, tss, tests in corpus for t in tests]
     auto = [(t, datetime.strptime(tss, "%Y-%m-%dT%H:%M")) for _, tss, tests in ac for t in tests]
-    pool = [x for x in base if len(x[0]) <= 28] + rng.sample(auto, 100)
+    pool = [x for x in base if len(x[0]) <= 28] + samp(rng, auto, 100)
     pool = [x for x in pool if len(x[0]) <= 28]
     extra = [("lunch tomorrow 5pm #work", datetime(2018, 3, 7, 12, 43)), ("5 5 5", datetime(2018, 3, 7, 12, 43)), ("9-5", datetime(2020, 2, 29, 23, 59, 59)),
              ("a #x b", datetime(2018, 3, 7)), ("gargelbabel", datetime(2018, 3, 7)), ("", datetime(2018, 3, 7)), ("#only", datetime(2018, 3, 7)),
